@@ -27,6 +27,36 @@ HDR = "cpp/runtime/include/formak/runtime/ManagedFilter.h"
 
 
 def run(ctx: core.Ctx) -> int:
+    step_rules(ctx)
+    from . import c06 as _c06
+    _c06.config_pass(ctx)
+    mag_gen(ctx)
+    # HOLD: a move to a reading's time is committed as one unit -- the time and the estimate that was moved there are held together.  If the time is
+    # held first and the estimate only after the sensor update, an update that raises leaves the clock ahead of the estimate and every later move
+    # is short by that gap (its steps no longer sum to the time the estimate really travels).  Decided by C11's tick analysis (the per-reading
+    # hold clause of its ORDER rule), on the Python and the C++ tick.
+    ctx.rule("HOLD", "the result of a move to a reading's time is held whole: time, state and covariance in one assignment")
+    from . import c11 as _c11
+    sub = core.Ctx(ctx.prop, ctx.tier, ctx.repo)
+    _c11.py_part(sub, {})
+    _c11.cpp_part(sub, {})
+    nh = 0
+    for o in sub.obligations:
+        if o.rule == "ORDER" and o.fact.startswith("STEP result held in"):
+            nh += 1
+            ctx.obligations.append(core.Obligation("HOLD", o.where, o.fact, o.ok))
+    for f in sub.findings:
+        if f.rule == "ORDER" and f.construct == "per-reading hold":
+            ctx.find("HOLD", f.file, f.func, f.construct, f.msg + " -- the held time and the held estimate can disagree after an update that raises", f.line)
+    for e in sub.errors:
+        ctx.error(e)
+    ctx.floor("HOLD", nh, 5, "per-reading holds (1 Python + 4 C++ tick overloads with readings)")
+    return core.finish(ctx, explanation="E5: IR-level symbolic execution of the step functions under direction scenarios, "
+                                        "sign analysis + provenance + effects", **META)
+
+
+def step_rules(ctx: core.Ctx):
+    """the step plans of the Python and the C++ step function against the template (also C11's "same sequence of filter calls" clause)"""
     ctx.rule("DIR", "on held < target every loop step is > 0, on held > target every loop step is < 0")
     ctx.rule("MAG", "every loop step is +-(configured max step); no numeric literal; config value printed losslessly into C++")
     ctx.rule("TEMPLATE", "k = [abs] floor([abs] (target-held)/h) with a non-negative floored quotient; remainder = target-(held+h*k) "
@@ -108,11 +138,7 @@ def run(ctx: core.Ctx) -> int:
     chain_py(ctx, cls, fn, [v[1] for v in variants] if extras else [body])
     nplans += cpp_part(ctx)
     ctx.floor("STEPPLAN", nplans, 10, "step plans (1 Python + 4 C++ instantiations, 2 directions each)")
-    from . import c06 as _c06
-    _c06.config_pass(ctx)
-    mag_gen(ctx)
-    return core.finish(ctx, explanation="E5: IR-level symbolic execution of the step functions under direction scenarios, "
-                                        "sign analysis + provenance + effects", **META)
+    return nplans
 
 
 def py_filter_sigs(ctx):
